@@ -455,6 +455,45 @@ def run(ctx):
                 else:
                     ctx.bad(rule, vname, 'elements after the tag are %s, variant fields are %s' % (gi, fields), where,
                             key='TABLE:%s:%s:fields' % (fn, vname))
+    # what the serialisers return is the tuple built in the arm of the message's own variant
+    ctx.rule('C08.3-result-from-own-arm', 'every value to_term / into_term can return is an OwnedTerm::Tuple built in this call (in the arm of the variant dispatch): a result taken from a call on some other message '
+             '(a "simplified" stand-in built before the dispatch) writes another operation than the one the caller holds', floor=2)
+    for fn, BB in (('to_term', Bt), ('into_term', Bi)):
+        if BB is None:
+            continue
+        live = BB.live_blocks()
+        n_lit, foreign = 0, None
+        for l in sorted(BB.ret_sources()):
+            for d in BB.defs().get(l, []):
+                if d[1] not in live:
+                    continue
+                if d[0] == 's':
+                    rv = d[3]['rv']
+                    if rv['k'] == 'agg' and rv.get('var') == 'Tuple' and str(rv.get('adt', '')).endswith('OwnedTerm'):
+                        n_lit += 1
+                    elif rv['k'] == 'use' and rv['op'].get('k') in ('cp', 'mv') and not rv['op']['pl'].get('p'):
+                        pass
+                    elif foreign is None:
+                        foreign = (d[1], 'a value that is not a tuple literal')
+                    continue
+                t = d[3] if len(d) > 3 else d[2]
+                names = callee_names(t)
+                if any(n in (CM + '::to_term', CM + '::into_term') for n in names) and t['args']:
+                    o = BB.origin(t['args'][0])
+                    x = o
+                    while x and x[0] in ('call',) and str(x[1]).endswith('::clone') and len(x) > 3 and x[3]:
+                        x = x[3][0] if isinstance(x[3], (list, tuple)) and x[3] and isinstance(x[3][0], tuple) else None
+                    if x and x[0] == 'arg' and x[1] == 1 and not [p_ for p_ in x[2] if p_ != 'deref']:
+                        n_lit += 1
+                        continue
+                if foreign is None:
+                    foreign = (d[1], 'the result of %s' % (callee_of(t)[0] or 'a call'))
+        if foreign is not None:
+            ctx.bad('C08.3-result-from-own-arm', fn, '%s can return %s instead of the tuple of the message\'s own variant: tag and fields on the wire are then those of another message' % (fn, foreign[1]),
+                    ctx.where(BB, foreign[0]), key='TABLE:%s:result-not-from-own-arm' % fn)
+        elif ctx.anchor(n_lit >= 1, CM + '::' + fn + ': tuple literal handed to the return slot'):
+            ctx.ok('C08.3-result-from-own-arm', fn, '%d tuple literals, nothing else reaches the return slot' % n_lit, ctx.where(BB))
+
     # the catch-all arm hands back the tuple it was given: nothing in it may reorder or drop elements
     ctx.rule('C08.3-generic-verbatim', 'in both serialisers the arm for ControlMessage::Generic performs no operation that reorders or removes elements of a vector (swap, reverse, rotate, sort, remove, swap_remove, pop, truncate, retain, dedup): '
              'the fields of an unknown message go back out in the order they came in, behind the tag', floor=2)
@@ -608,6 +647,44 @@ def run(ctx):
         check_casts(ctx, ctx.P.B(q), 'C08.4-cast', include_float=False)
     ctx.info_note('C08.4-cast also scanned %d functions the conversions call into: %s' % (len(extra_), [x.rsplit('::', 1)[1] for x in extra_][:8]))
 
+    # ---- one parser: what is checked above is from_term; nothing else turns a decoded tuple into a ControlMessage -------------
+    ctx.rule('C08.2-one-parser', 'from_term is the only place where a ControlMessage is built out of the elements of a decoded tuple: a ControlMessage::Generic literal, or any variant literal with a field '
+             'taken from a tuple\'s element vector, anywhere else is a second parser that the tables above say nothing about', floor=1)
+    n_cm, second = 0, []
+    for q in sorted(ctx.F.bodies):
+        if ctx.F.bodies[q]['crate'] not in ('edp_client', 'edp_node') or ctx.F.bodies[q]['kind'] not in ('Fn', 'AssocFn', 'Closure'):
+            continue
+        if q.split('::{')[0] == CM + '::from_term' or '::clone::Clone>::clone' in q or '::fmt::Debug>' in q:
+            continue
+        QB = ctx.P.B(q)
+        lits = [(bb, st) for bb, j, st in QB.stmts() if st['k'] == '=' and st['rv']['k'] == 'agg' and st['rv'].get('adt') == CM and bb in QB.live_blocks()]
+        if not lits:
+            continue
+        srcs = []
+        for bb, t in QB.calls():
+            if any(n.rsplit('::', 1)[-1] in ('as_tuple', 'into_tuple', 'as_tuple_mut', 'tuple_elements') and 'OwnedTerm' in n for n in callee_names(t)) and not t['dst'].get('p'):
+                srcs.append(t['dst']['l'])
+        for bb, j, st in QB.stmts():
+            if st['k'] == '=' and not st['pl'].get('p'):
+                for pl_ in _rv_places_c08(st['rv']):
+                    if any(isinstance(e, dict) and str(e.get('n', '')) == 'Tuple' and 'dc' in e for e in (pl_.get('p') or [])):
+                        srcs.append(st['pl']['l'])
+        d = (QB.derived_locals(srcs) | set(srcs)) if srcs else set()
+        for bb, st in lits:
+            n_cm += 1
+            rv = st['rv']
+            from_elems = [fn_ for fn_, op in zip(rv.get('fn') or [], rv.get('ops') or []) if any(l in d for l in QB._op_locals(op))]
+            if rv.get('var') == 'Generic' or from_elems:
+                second.append((q, bb, rv.get('var'), from_elems))
+    for q, bb, var, fe in second:
+        QB = ctx.P.B(q)
+        ctx.bad('C08.2-one-parser', '%s:%s' % (q.rsplit('::', 1)[-1], var), '%s builds ControlMessage::%s %s outside from_term: messages that take this way in are not parsed by the table checked against the protocol '
+                '(tag, arity, field positions, order of the fields of an unknown operation)' % (q.split('::{')[0].rsplit('::', 1)[-1], var, ('with %s taken from the elements of a tuple' % fe) if fe else 'for an unknown operation'),
+                ctx.where(QB, bb), key='WHO:%s:builds-%s-from-tuple' % (q.split('::{')[0], var))
+    ctx.anchor(n_cm >= 10, 'ControlMessage literals outside from_term (the send side builds them): 20 counted')
+    if not second:
+        ctx.ok('C08.2-one-parser', 'all', '%d ControlMessage literals outside from_term, none of them Generic, none fed from a tuple\'s elements' % n_cm)
+
     # ---- clause 5: PANIC (indexing in from_term) ----------------------------------
     ctx.rule('C08.5-index', 'every elements[k] / elements[k..] in from_term is dominated by a guard proving k < len (k <= len for ranges)', floor=90)
     if Bp is not None:
@@ -659,6 +736,20 @@ def run(ctx):
                     ctx.ok('C08.2-unlink-id-space', 'id#%d' % n_u, 'range at the narrowing is [%s, %s]' % (lo, hi), ctx.where(Bp, ln=st['ln']))
         if n_u == 0:
             ctx.ok('C08.2-unlink-id-space', 'id', 'no i64 -> u64 narrowing in the parser (checked conversion)')
+
+
+def _rv_places_c08(rv):
+    out = []
+    if rv['k'] in ('ref', 'rawptr', 'discr'):
+        out.append(rv['pl'])
+    for key in ('op', 'a', 'b'):
+        o = rv.get(key)
+        if isinstance(o, dict) and o.get('k') in ('cp', 'mv'):
+            out.append(o['pl'])
+    for o in rv.get('ops', []) or []:
+        if o.get('k') in ('cp', 'mv'):
+            out.append(o['pl'])
+    return out
 
 
 def _is_field(e, name, into=False):
